@@ -419,7 +419,17 @@ def decide(pid, cfg, tier, seed, t0):
         if cfg.get("build_is_check"):
             rp = write_replay(pid, "build", {"error": walls[-3000:], "note": "the harness (public API client) no longer builds against /repo"})
             return finish(pid, cfg, tier, seed, t0, tally, [("build", rp, False)], [], p_ok, theorems, undischarged, axioms_used, coverage_extra, assumptions, gen)
-        infra("harness does not build against /repo:\n" + walls[-3000:])
+        m = re.search(r"error\[E0277\]: `[^`]*` cannot be (sent|shared) between threads safely", walls)
+        if pid == "C15" and m:
+            # rustc is the authority for Send + Sync: the harness' assert_send_sync::<T>() for a public type fails
+            rp = write_replay(pid, "send-sync", {"rustc_error": walls[max(0, m.start() - 200):m.start() + 2500],
+                                                  "note": "a public type is no longer Send + Sync (harness/src/main.rs static_asserts)"})
+            return finish(pid, cfg, tier, seed, t0, tally, [("send-sync", rp, False)], [], p_ok, theorems, undischarged, axioms_used, coverage_extra, assumptions, gen)
+        # the client of the public API that carries the correspondence no longer compiles: the property is no
+        # longer shown to hold on this tree, and nothing could be executed to look for a failing input
+        rp = write_replay(pid, "unproved", {"correspondence": "harness build (cargo build --offline in /verif/harness against /repo)",
+                                            "error": walls[-3000:], "note": "the correspondence check cannot run: the harness no longer builds against /repo"})
+        return finish(pid, cfg, tier, seed, t0, tally, [("unproved", rp, True)], [], p_ok, theorems, undischarged, axioms_used, coverage_extra, assumptions, gen)
     if special:
         mod = import_module("special_" + special)
         extra_viol, extra_cov = mod.run(pid, cfg, tier, seed, tally, sys.modules[__name__])
